@@ -106,6 +106,26 @@ func Garbage(label string, maxLen int) []byte {
 // repeated fields.
 func NonCanonical(b []byte) []byte { return append(append([]byte{}, b...), b...) }
 
+// IfInt / IfStr / IfBytes are conditional values that do not branch under the engine.
+func IfInt(c bool, a, b int) int {
+	if c {
+		return a
+	}
+	return b
+}
+func IfStr(c bool, a, b string) string {
+	if c {
+		return a
+	}
+	return b
+}
+func IfBytes(c bool, a, b []byte) []byte {
+	if c {
+		return a
+	}
+	return b
+}
+
 func Assume(b bool) {
 	if !b {
 		panic("vf.Assume violated natively: model does not satisfy harness assumption")
@@ -149,7 +169,7 @@ func SecretFree(msg proto.Message, secrets ...[]byte) bool {
 // signing with the leaf's key (universe key keyIdx) if it holds it, with an unrelated key otherwise.
 // Under the engine the call is intercepted and returns nil: the model reads the peer struct instead.
 func AdversaryConn(protos []string, chain [][]byte, keyIdx int, holds bool) net.Conn {
-	server, client := net.Pipe()
+	server, client := connPair()
 	go func() {
 		k := keyIdx
 		if !holds {
@@ -160,6 +180,7 @@ func AdversaryConn(protos []string, chain [][]byte, keyIdx int, holds bool) net.
 				return &tls.Certificate{Certificate: chain, PrivateKey: edKey(k)}, nil
 			}}
 		tc := tls.Client(client, cfg)
+		_ = client.SetDeadline(time.Now().Add(5 * time.Second))
 		_ = tc.Handshake()
 		// TLS 1.3: the client finishes before the server has checked its certificate; read to learn the verdict
 		_ = client.SetReadDeadline(time.Now().Add(500 * time.Millisecond))
@@ -168,6 +189,31 @@ func AdversaryConn(protos []string, chain [][]byte, keyIdx int, holds bool) net.
 		_ = client.Close()
 	}()
 	return server
+}
+
+// connPair returns the two ends of a buffered duplex connection (a loopback TCP connection: net.Pipe is
+// unbuffered, and a TLS server that sends an alert while the client is still writing its flight deadlocks on it).
+func connPair() (server, client net.Conn) {
+	ln, err := net.Listen("tcp", "127.0.0.1:0")
+	if err != nil {
+		return net.Pipe()
+	}
+	defer ln.Close()
+	ch := make(chan net.Conn, 1)
+	go func() {
+		c, err := net.Dial("tcp", ln.Addr().String())
+		if err != nil {
+			ch <- nil
+			return
+		}
+		ch <- c
+	}()
+	server, err = ln.Accept()
+	client = <-ch
+	if err != nil || client == nil {
+		return net.Pipe()
+	}
+	return server, client
 }
 
 // ---- time ----
